@@ -59,15 +59,16 @@ class Rig:
 
         self.RigAccessory = RigAccessory
         self.loop = asyncio.new_event_loop()
-        if Rig._loader is None or Rig._loader_cls is not Loader:
-            Rig._loader, Rig._loader_cls = Loader(), Loader
+        # one loader per driver, as an application has it -- and a fresh one per rig, so that nothing
+        # one history does to loader-level state can leak into the next history
+        self.loader = Loader()
         self.driver = ad.AccessoryDriver(
             loop=self.loop,
             address="127.0.0.1",
             persist_file="/nonexistent-dir/verif-accessory.state",
             mac="AA:BB:CC:DD:EE:FF",
             pincode=b"031-45-154",
-            loader=Rig._loader,
+            loader=self.loader,
         )
         self.driver.persist = lambda: None  # no file system traffic
         self.driver.aio_stop_event = asyncio.Event()
@@ -92,9 +93,6 @@ class Rig:
         self.driver.http_server.push_event = lambda data, client, immediate=False: (
             self.pushed.append((dict(data), client)) or True
         )
-
-    _loader = None
-    _loader_cls = None
 
     def close(self):
         try:
